@@ -204,6 +204,7 @@ func genCase(t *rapid.T) (*Case, []string) {
 		// the caller reads with a short buffer (the datagram is truncated, a buffering member has larger packets queued)
 		c.ReadBuf = 1 + rapid.SampledFrom([]int{0, 1, 4, 11, 12, 13, 16, 20, 23, 24, 40, 64, 200}).Draw(t, "readBuf")
 		classes = append(classes, "short-read-buffer")
+		c.SpareCap = rapid.Bool().Draw(t, "spareCap")
 	}
 	switch rapid.IntRange(0, 2).Draw(t, "kind") {
 	case 0:
